@@ -951,6 +951,11 @@ pub(crate) fn gcd(n1: Number, n2: Number, arena: &mut Arena) -> Result<Number, M
         functor_stub(gcd_atom, 2)
     };
 
+    // gcd(0, 0) is 0; the bignum gcd is not defined between zeros
+    if n1.is_integer() && n2.is_integer() && n1.is_zero() && n2.is_zero() {
+        return Ok(Number::arena_from(0i64, arena));
+    }
+
     match (n1, n2) {
         (Number::Fixnum(n1), Number::Fixnum(n2)) => {
             let n1_i = n1.get_num() as isize;
